@@ -636,9 +636,10 @@ func constRangeLocs(r *fnResolver, v ssa.Value, depth int) (locs []Loc, lo, hi i
 	switch x := v.(type) {
 	case *ssa.Slice:
 		pt, isPtr := x.X.Type().Underlying().(*types.Pointer)
-		if !isPtr || x.Max != nil {
+		if !isPtr {
 			return nil, 0, 0, false
 		}
+		// a capacity bound (a[:k:k]) does not change which elements the slice designates
 		arr, isArr := pt.Elem().Underlying().(*types.Array)
 		if !isArr {
 			return nil, 0, 0, false
